@@ -1870,7 +1870,7 @@ def _r4_follow(ctx, rid, f, st, r, must_raise, depth=0, starts=None, extra_env=N
         return False
 
     def is_r(e):
-        return isinstance(e, ast.Name) and e.id == r
+        return _same_length_as(e, r)
     hands_back = {id(x): _result_position(x.value, is_r) for x in cfg.stmts()
                   if isinstance(x, ast.Return) and x.value is not None and _result_position(x.value, is_r) is not None} \
         if _is_private(f) and ctx.cg.call_sites_of(f) else {}
@@ -1899,6 +1899,19 @@ def _r4_follow(ctx, rid, f, st, r, must_raise, depth=0, starts=None, extra_env=N
     return None
 
 
+def _same_length_as(e: ast.AST, r: str) -> bool:
+    """`e` has exactly as many elements as the local sequence `r`: `r` itself, an order-keeping copy, or an unfiltered
+    comprehension with one element per element of `r` (`[(n, f(n)) for i, n in enumerate(r)]`) - empty iff `r` is empty."""
+    e = _through_copies(e)
+    if isinstance(e, ast.Name):
+        return e.id == r
+    if isinstance(e, (ast.ListComp, ast.GeneratorExp, ast.SetComp)) and len(e.generators) == 1 and not e.generators[0].ifs \
+            and not isinstance(e, ast.SetComp):
+        src = _loop_source(e.generators[0].iter)
+        return isinstance(src, ast.Name) and src.id == r
+    return False
+
+
 def _hands_selection_back(cfg, st, call) -> bool:
     """the look-up result itself (possibly copied, possibly as a tuple element) is returned by the function"""
     if isinstance(st, ast.Return):
@@ -1906,7 +1919,7 @@ def _hands_selection_back(cfg, st, call) -> bool:
     if isinstance(st, ast.Assign) and _through_copies(st.value) is call and len(st.targets) == 1 and isinstance(st.targets[0], ast.Name):
         r = st.targets[0].id
         return any(isinstance(x, ast.Return) and x.value is not None
-                   and _result_position(x.value, lambda e: isinstance(_through_copies(e), ast.Name) and _through_copies(e).id == r) is not None
+                   and _result_position(x.value, lambda e: _same_length_as(e, r)) is not None
                    for x in cfg.stmts())
     return False
 
